@@ -40,7 +40,9 @@ EXPLANATION = (
     'appended for install_subdir is the basename of the recorded, trimmed source path. All functions are first brought into a normal form '
     '(loops over constant tuples unrolled, conditional callables and filter() desugared, named conditions / module constants / list-growth '
     'spellings / small membership tests normalised); calls are bound by signature; findings need a closed world, else Undecided. '
-    'Does NOT decide: that the log of an --only-changed run still names the preserved files (they were not created by that run), validation of '
+    'R8 also: a strip of an item attribute from the installed name (man page locale) performed under tests of that attribute is not skipped on a path that never tests it. '
+    'Does NOT decide: which tag Backend.guess_install_tag assigns to an untagged entry (precedence between nested well-known directories is value-level and not documented), '
+    'that the log of an --only-changed run still names the preserved files (they were not created by that run), validation of '
     'install_mode owner/group values in the interpreter, that InstallData otherwise matches the build definition, idempotence beyond the remove-before-create clause, symlink-escapes through '
     'pre-existing links, `..` components of install paths, or what custom install scripts write.')
 ASSUMPTIONS = [
@@ -3146,7 +3148,108 @@ def _subdir_basename_sites(mod: Module, recs: T.Dict[str, T.List[str]]) -> T.Lis
     return out
 
 
+class StripSite(T.NamedTuple):
+    func: str
+    loop: ast.For
+    attr: str
+    effect: str
+    missing: T.List[str]       # descriptions of the worlds in which the item attribute is set but the name is not stripped
+    worlds: int
+
+
+def _name_strips(mod: Module, recs: T.Dict[str, T.List[str]]) -> T.List[StripSite]:
+    """In a loop that builds install records: a step `name = name.replace(<text with item.attr>, '')` (an attribute of the item is
+    removed from the installed name, e.g. the locale of a man page) that is performed under tests of that attribute must be performed
+    in *every* world that satisfies those tests - it must not additionally hinge on unrelated conditions of the path."""
+    out: T.List[StripSite] = []
+    for q, fn in mod.funcs().items():
+        loops = [n for n in walk_no_nested(fn) if isinstance(n, ast.For)]
+        for lp in loops:
+            if any(isinstance(x, ast.For) for b in lp.body for x in ast.walk(b)):
+                continue       # innermost loops only
+            if not any(isinstance(c, ast.Call) and isinstance(c.func, ast.Name) and c.func.id in recs for b in lp.body for c in ast.walk(b)):
+                continue
+            if not any(isinstance(c, ast.Call) and isinstance(c.func, ast.Attribute) and c.func.attr == 'replace' for b in lp.body for c in ast.walk(b)):
+                continue
+            tab = tables.extract(fn, body=lp.body, effects=_assign_eff, inline=False, name=f'{q}:loop')
+            per_attr: T.Dict[str, T.List[T.Tuple[tables.Row, str]]] = {}
+            for r in tab.rows:
+                for e in r.effects:
+                    if ' := ' not in e or e.startswith('call '):
+                        continue
+                    try:
+                        v = ast.parse(e.split(' := ', 1)[1], mode='eval').body
+                    except SyntaxError:
+                        continue
+                    for c in ast.walk(v):
+                        if isinstance(c, ast.Call) and isinstance(c.func, ast.Attribute) and c.func.attr == 'replace' and len(c.args) == 2 \
+                                and isinstance(c.args[1], ast.Constant) and c.args[1].value == '':
+                            attrs = {attr_chain(x) for x in ast.walk(c.args[0]) if isinstance(x, ast.Attribute) and attr_chain(x)}
+                            for a_ in attrs:
+                                per_attr.setdefault(a_, []).append((r, e))       # type: ignore[arg-type]
+            for a_, hits in per_attr.items():
+                guards = [at for at in tab.atoms() if a_ in repr(at)]
+                if not guards:
+                    continue       # the strip is unconditional
+                sigs = {frozenset((at, v_) for at, v_ in r.conds.items() if at in guards) for r, _ in hits}
+                sigs = {sg for sg in sigs if sg}
+                if not sigs:
+                    continue
+                strip_rows = {id(r) for r, _ in hits}
+                missing: T.List[str] = []
+                nw = 0
+                for w in tab.worlds():
+                    if not any(all(w.get(at) == v_ for at, v_ in sg) for sg in sigs):
+                        continue
+                    nw += 1
+                    for r in tab.fire(w):
+                        if r.outcome[0] in ('raise', 'continue', 'break'):
+                            continue
+                        if id(r) not in strip_rows and not any(at in r.conds for at in guards):
+                            # positive evidence only: a path that reaches the record without ever looking at the attribute other paths strip by
+                            desc = ' & '.join(('' if v_ else 'not ') + repr(at) for at, v_ in r.conds.items())
+                            if desc not in missing:
+                                missing.append(desc)
+                out.append(StripSite(q, lp, a_, hits[0][1], missing, nw))
+    return out
+
+
+R8C_EXAMPLE = """
+import os
+class InstallData:
+    def __init__(self):
+        self.man: T.List[InstallDataBase] = []
+class InstallDataBase:
+    path: str
+    install_path: str
+class Backend:
+    def gen_good(self, d, man):
+        for m in man:
+            sub = m.custom_dir()
+            if sub is None:
+                sub = 'man'
+            fname = m.fname
+            if m.locale:
+                fname = fname.replace(f'.{m.locale}', '')
+            d.man.append(InstallDataBase(m.src, os.path.join(sub, fname)))
+    def gen_bad(self, d, man):
+        for m in man:
+            sub = m.custom_dir()
+            fname = m.fname
+            if sub is None:
+                sub = 'man'
+                if m.locale:
+                    fname = fname.replace(f'.{m.locale}', '')
+            d.man.append(InstallDataBase(m.src, os.path.join(sub, fname)))
+"""
+
+
 def r8(ctx: RuleCtx) -> None:
+    exc = U.synthetic_module('example/backends_man.py', R8C_EXAMPLE)
+    exs = {s_.func: bool(s_.missing) for s_ in _name_strips(exc, _record_classes(exc))}
+    if exs != {'Backend.gen_good': False, 'Backend.gen_bad': True}:
+        raise AnalysisError(f'C11.R8 built-in example (name strip) not recognised: {exs}')
+    ctx.ok('built-in example: a locale strip that only happens for the default directory is flagged; an unconditional-on-directory strip is clean', nontrivial=False)
     exm = U.synthetic_module('example/backends.py', R8_EXAMPLE)
     erec = _record_classes(exm)
     dropped, _ = _dropped_components(exm, erec)
@@ -3170,6 +3273,12 @@ def r8(ctx: RuleCtx) -> None:
         ctx.require(v == 'ok', f'{q}: the directory name appended to the destination is the basename of the recorded (trimmed) source path', mod, q, f'os.path.basename({norm(e)})',
                     f'the destination of {norm(c.func)} gets os.path.basename({norm(e)}) appended, but the recorded source is `{norm(p_arg)}`, which is the same string with trailing '
                     f'separators trimmed: for install_subdir(\'docs/html/\') the basename is empty and the contents land directly in the install dir instead of <install_dir>/html', c)
+    for st_ in _name_strips(mod, recs):
+        ctx.require(not st_.missing, f'{st_.func}: `{short(st_.effect, 60)}` is performed in all {st_.worlds} worlds in which `{st_.attr}` is set',
+                    mod, st_.func, f'{st_.effect} only on some paths with {st_.attr}',
+                    f'the installed name has `{st_.attr}` removed (`{short(st_.effect, 70)}`) on some paths, but not when {st_.missing[0] if st_.missing else ""}: '
+                    f'the strip hinges on a condition that has nothing to do with `{st_.attr}` (install_man(locale: \'fr\', install_dir: <custom>) installs tool.fr.1 instead of tool.1; '
+                    f'docs: "foo.fr.1 with a locale of fr ... foo.1 becomes the installed file")', st_.loop)
     ctx.note(f'install record classes: {", ".join(recs)}')
     if not sites:
         ctx.note('no directory-tree record with a basename component found (nothing to compare)')
